@@ -31,8 +31,14 @@ def order_scenarios(rng, n):
         for op in sc['ops']:
             if op['op'] == 'set':
                 continue
-            if op.get('input') == 'nd':
+            if op.get('input') == 'nd' and rng.random() < .5:
                 op['input'] = 'list'
+            elif op.get('input') == 'nd':
+                # numpy input is cut into row blocks first; every block is a chunk of its own, whatever chunk_size was asked for
+                op['n'] = max(op['n'], 8)
+                if rng.random() < .6:
+                    op['chunk_size'] = rng.choice([2, 3])
+                    op.pop('n_splits', None)
             if op['n'] < 4:
                 op['n'] = rng.randint(4, 24)
             if op.get('iterable_len') is not None:
@@ -62,6 +68,10 @@ def run(chk):
         n = rng.randint(1, 6)
         order = rng.random() < .6
         ops = assign.gen_ops(rng, n)
+        if _ % 40 == 0:
+            # a very long call: thousands of chunks, no reset in between (the running index must not wrap)
+            ops = ['A' if rng.random() < .9 else 'C:%d' % rng.randrange(n) for _k in range(rng.choice([4500, 9000]))]
+            order = True
         lines.append('assign order=%d n=%d ops=%s' % (order, n, ','.join(ops) or '-'))
         impl.append(assign.run_ops(n, order, ops))
     out = drv.run(lines)
